@@ -54,6 +54,9 @@ func (r *run) loadFrom(addr value) value {
 				r.traceEvent("rd:" + loc)
 			}
 		}
+		if len(r.pooled) > 0 && r.pooled[p] {
+			r.pooledHit()
+		}
 		return copyVal(*p)
 	case *symptr:
 		var res *Term
@@ -83,6 +86,9 @@ func (r *run) storeTo(addr value, v value) {
 		}
 		if label, ok := r.frozen[p]; ok {
 			r.frozenHit(label)
+		}
+		if len(r.pooled) > 0 && r.pooled[p] {
+			r.pooledHit()
 		}
 		if loc, ok := r.watch[p]; ok {
 			// a map stored into a watched location is watched under its name
